@@ -1156,6 +1156,9 @@ class Gen:
         body = self.assign_stmts(p, allsrc, "ff", t=t)
         if rng.random() < k["reset_ff"]:
           rv = ["c", rng.choice([0, 1, mask(p["w"])]) & mask(p["w"]), None] if isinstance(t, int) else None
+          if rv is not None and k.get("neg_reset") and rng.random() < 0.3:
+            rv = ["c", rng.choice([-1, -(1 << (p["w"] - 1))]), None]          # s.r <<= -1: the accepted negative ints (all ones / only the top bit)
+            self.design.setdefault("stats", {}).setdefault("registers_reset_to_a_negative_int", 0); self.design["stats"]["registers_reset_to_a_negative_int"] += 1
           if rv is not None:
             body = [["if", ["rd", {"path": "reset", "steps": [], "lo": 0, "w": 1}], [["=", p, rv]], body]]
         stmts += body
